@@ -34,6 +34,18 @@ CLAIMS = {
          "effects are applied atomically at release in the model; batches whose inner-dispatch count depends on the world are "
          "outside the batch lemma (the harness's MultiDispatcher counts are fixed); rayon modelled",
          "confluence proof + differential correspondence", "5 C05"),
+ "C06": ("proof by structural induction over type expressions of ANY arity and nesting (Read/Write with default or panic handler, Option "
+         "forms, (), PhantomData, tuples, derived structs): reported reads/writes = types of the shared/exclusive leaves in fetch "
+         "order; a successful fetch adds exactly one shared guard per existing declared read and one exclusive guard per existing "
+         "declared write and changes nothing else; dropping the value (or the unwinding of a failed fetch) restores cells and guards "
+         "exactly; setup = composition of member setups with its exact effect. tie: S4 — a generated crate instantiates 787 type "
+         "expressions for real (every tuple arity in the source twice, every leaf kind at every position of arities "
+         "1,2,3,5,8,13,21,26, nestings to depth 3, derived named/tuple structs with 1..40 fields, extra lifetimes, type parameters, "
+         "where-clauses, members without the fetch lifetime) under 7 presence masks each; reads()/writes(), fetch outcome, borrow "
+         "class of every cell while the value lives and after the drop, world after setup are compared with SysData.v",
+         "parametricity of Rust generics is the (trusted) reason why finitely many instantiations characterise the generic impls and "
+         "the macro; a tuple arity that no longer compiles breaks the generated crate => violation with the compiler output as replay",
+         "structural induction + differential correspondence on generated instantiations", "5 C06"),
  "C07": ("proof: C07_batch_accessor_covers_controller_and_all_inner_systems by induction on nesting (any depth); "
          "C07_side_by_side_subtrees_do_not_conflict: registrations placed side by side do not conflict on anything declared inside "
          "them; the inner dispatcher is planned by the same planner (all level theorems apply to it); inner events lie inside the "
@@ -76,8 +88,8 @@ CLAIMS = {
          "of all systems of the program; tie: S2 records the real setup and dispose hook calls and compares their exact ORDER with "
          "the extracted model list, plus world unchanged by a setup on a populated world",
          "genuine defect found and repaired (fix: 5f7fbf8): dispose never reached systems inside a batch. The world half "
-         "(default-providing accessors create exactly the missing resources, optional forms create nothing) is proved in "
-         "SysDataProps.v and tied by suite S4 once registered under C06",
+         "(C13_setup_never_clobbers_and_creates_only_defaults, idempotence) is proved in SysDataProps.v and tied by suite S4 (world "
+         "after setup of 787 generated type expressions under presence masks, existing values must be kept, repeated setup)",
          "structural induction on nesting + differential correspondence", "5 C13"),
  "C14": ("proof over the faulty trace sets of Fault.v, for EVERY fault set and interleaving: panic reaches the caller iff a system "
          "panicked; no system placed behind a panicking one runs (so no dependent, C02); no thread-local after a staged panic; nothing "
@@ -98,7 +110,7 @@ CLAIMS = {
          "stage/group and are outside the text",
          "invariant induction + differential correspondence", "5 C20"),
 }
-REGISTERED = ["C01", "C02", "C03", "C04", "C05", "C07", "C08", "C09", "C10", "C12", "C13", "C14", "C18", "C20"]
+REGISTERED = ["C01", "C02", "C03", "C04", "C05", "C06", "C07", "C08", "C09", "C10", "C12", "C13", "C14", "C18", "C20"]
 
 def main():
     props = [json.loads(l) for l in open(os.path.join(VERIF, "properties.jsonl"))]
